@@ -454,7 +454,10 @@ func (t StaticMap[K, V, O]) IterKeyRange(ctx context.Context, start, stop K) (*O
 		return curr.compare(hi) >= 0
 	}
 
-	if stopF(lo) {
+	// |lo| is out of bounds when |start| is greater than every key in the
+	// tree. Such a cursor does not compare equal to the past-the-end cursor
+	// used for an open |stop|, so it must be checked separately.
+	if stopF(lo) || lo.outOfBounds() {
 		return &OrderedTreeIter[K, V]{curr: nil}, nil
 	}
 
